@@ -58,7 +58,7 @@ def remembered_matches(V, mc):
     return bad
 
 
-def build(V, driver="Canonical", table="d", n=2, fixed=(), check=False, calc="caching", molecular=False, preselect=False, coin=False, nexch=None):
+def build(V, driver="Canonical", table="d", n=2, fixed=(), check=False, calc="caching", molecular=False, preselect=False, coin=False, nexch=None, validate=True):
     """Simulation in an arbitrary validated state (shared with C04/C05/C12)."""
     fixcom = fixed == "com"
     atoms = mcsim.make_atoms(V, n, momenta=True, extras=True, fixed=() if fixcom else fixed)
@@ -82,7 +82,8 @@ def build(V, driver="Canonical", table="d", n=2, fixed=(), check=False, calc="ca
         mc.add_move(move, criteria=IsobaricCriteria() if "cell" in table else CanonicalCriteria(), name="m")
     else:
         mc.add_move(move, name="m")
-    mc.validate_simulation()
+    if validate:
+        mc.validate_simulation()
     if driver == "HamiltonianCanonical":
         mc.context.last_kinetic_energy = atoms.get_kinetic_energy()
     if preselect:
@@ -165,6 +166,8 @@ def _plan(tier):
     P.append(("trial", dict(driver="GrandCanonical", table="e2", n=2, fixed=(), check=False, coin=True), R))
     P.append(("trial", dict(driver="GrandCanonical", table="e+e", n=2, fixed=(), check=False, coin=True), R))
     P.append(("trial", dict(driver="GrandCanonical", table="e+d", n=2, fixed=(), check=False, coin=True), R))
+    P.append(("trial", dict(driver="GrandCanonical", table="e+e", n=2, fixed=(), check=True, coin=True), R + ("failed",)))
+    P.append(("trial", dict(driver="GrandCanonical", table="swap", n=2, fixed=(), check=False, coin=True), R))
     P.append(("trial", dict(driver="GrandCanonical", table="d", n=2, fixed=(), check=False), R))
     P.append(("trial", dict(driver="GrandCanonical", table="e", n=2, fixed=(), check=False, preselect=True), R))
     if not q:
